@@ -327,10 +327,18 @@ PROPS = {
     ),
     "C06": dict(
         module="Hb.Props.C06",
+        more_modules=["Hb.Props.C06History"],
         ties=[("scen", "table", 300, 10000), ("scen", "table-churn", 120, 4000), ("scen", "panic-table", 4, 100)],
         backends=["sse2", "portable"],
         design="§7 C06",
-        text="Lean theorems over the table invariant TblInv (structural invariant + every element tagged with and reachable "
+        text="Lean HISTORY theorem table_history_refines (Hb.Props.C06History): every history of the 17 HashTable calls (find, find_mut, "
+             "insert_unique, find_entry + OccupiedEntry::remove (+ VacantEntry::insert), entry().insert/or_insert/and_modify, retain, "
+             "extract_if, drain, clear, reserve, shrink_to, get_many_mut, iter_hash, iter, len) from new(), for ARBITRARY (stateful, "
+             "panicking) equality closures, predicates and destructors and any hash assignment, never faults and after every prefix "
+             "is a trace of a reference MULTISET (returns and caught panics related call by call; stored elements = reference up to "
+             "permutation; len = its size); corollaries in the words of the property: inserted-and-not-removed is found, removed is "
+             "never returned, len counts duplicates, iter_hash(h) yields each stored element with hash h and no bucket twice. "
+             "Per call: Lean theorems over the table invariant TblInv (structural invariant + every element tagged with and reachable "
              "along the probe sequence of its caller-supplied hash; NO key-distinctness: a HashTable is a multiset) for every "
              "assignment of 64-bit hashes (function H, arbitrary collisions in position and tag bits) and arbitrary equality "
              "closures: find returns a stored element accepted by the closure whenever one exists with that hash, never "
